@@ -45,7 +45,12 @@ def build_wn(spec, controls=True):
     if 'trials' in o:
         h.trials = o['trials']
     for name, mult in spec['patterns'].items():
-        wn.add_pattern(name, list(mult))
+        if name in (spec.get('nowrap') or ()):
+            # a pattern that does not repeat (what Pattern.binary_pattern / add_fire_fighting_demand create): 0 after its end
+            from wntr.network.elements import Pattern
+            wn.add_pattern(name, Pattern(name, multipliers=list(mult), time_options=wn.options.time, wrap=False))
+        else:
+            wn.add_pattern(name, list(mult))
     for name, c in spec['curves'].items():
         wn.add_curve(name, c['type'], [tuple(p) for p in c['pts']])
     for j in spec['junctions']:
@@ -255,6 +260,8 @@ def pattern_mult(spec, pname, t):
     if len(m) == 0:
         return 1.0
     step = int(math.floor(t / spec['opts']['pat']))
+    if pname in (spec.get('nowrap') or ()) and len(m) > 1:
+        return m[step] if 0 <= step < len(m) else 0.0
     return m[step % len(m)]
 
 
